@@ -651,7 +651,9 @@ def st_shift(draw):
         # library's float sum is exact (04,125 - PT7M30S prints 03,999999)
         unit = 1 if "second" in arg["time"] else 60 if "minute" in arg["time"] \
             else 3600
-        if (Fraction("0." + arg["frac"]) * unit).denominator == 1:
+        fr = Fraction("0." + arg["frac"])
+        if (fr * unit).denominator == 1 and \
+                fr.denominator & (fr.denominator - 1) == 0:
             subunit = True
             menu = {3600: [{"minutes": 15}, {"minutes": 30}, {"minutes": 45},
                            {"hours": 1, "minutes": 30},
